@@ -127,7 +127,7 @@ IncludeIsInlining == (Over /\ CanUnroll(script) /\ AllCallsWellFormed(Flat, Reg0
                           /\ (S.res.k = "ok" => SameOps(S.res.prog, b.prog) /\ S.res.prog.modes = b.prog.modes)
 IllFormedCallRefused == (Over /\ CanUnroll(script) /\ ~AllCallsWellFormed(Flat, Reg0)) => S.res.k = "raise"
 \* the registry the machine built is the declarative one (names visible, nested includes merged)
-RegistryAgrees == (S.res = None /\ Len(S.st) = 1 /\ Top(S).pc <= Len(Top(S).plan) /\ Instr(S).a \notin {"declarename", "version", "include"})
+RegistryAgrees == (S.res = None /\ Len(S.st) = 1 /\ Top(S).pc <= Len(Top(S).plan) /\ Instr(S).a = "enterProgram")     \* all include lines done
                     => {Top(S).incs[i].name : i \in 1..Len(Top(S).incs)} = {Reg0[i].name : i \in 1..Len(Reg0)}
 EmitI == Over => PrintT(<<"CASE", ToJson([s |-> script, out |-> S.res,
                     inl |-> IF CanUnroll(script) /\ AllCallsWellFormed(Flat, Reg0) THEN Inline(Flat, Reg0) ELSE [none |-> TRUE]])>>)
